@@ -111,6 +111,7 @@ def gen(rng, tier, index):
         else:
             ops.append({"op": "reset", "via": str(rng.choice(["joint", "system"]))})
     plan["ops"] = ops
+    plan["angle0_kind"] = str(rng.choice(["float", "float", "np64", "np0d"]))
     plan["scale"] = [float(x) for x in rng.uniform(0.5, 2.0, 2)]
     if plan.get("exact"):
         plan["scale"] = [1.0, 1.0]
@@ -128,6 +129,10 @@ class Rig:
         from ..scenes import FrameMotion
 
         self.plan = plan
+        # the initial angle as the caller may hold it: a Python float, a NumPy scalar or a 0-d array (np.squeeze, np.load, ...)
+        kind = plan.get("angle0_kind", "float")
+        self.angle0_arg = {"float": float(plan["angle0"]), "np64": np.float64(plan["angle0"]), "np0d": np.array(plan["angle0"], dtype=float)}[kind]
+        self.angle0_given = np.array(plan["angle0"], dtype=float)
         self.body1 = plan["sub1"] == "body"
         self.frame1 = plan["sub1"] == "frame"
         self.c = plan["axis"]
@@ -168,7 +173,7 @@ class Rig:
             s1,
             b2,
             axis=self.c,
-            angle0=plan["angle0"],
+            angle0=self.angle0_arg,
             r_OJ0=None if plan["rJ"] is None else rJ,
             A_IJ0=None if plan["pJ"] is None else AJ,
             name="rev",
@@ -328,6 +333,10 @@ def execute(plan, out, log):
             out["probes"][f"reset_in_quadrant_{_quadrant(phi)}"] += 1
             log.ev("reset", k, op["via"])
             query(k)
+    if not out["violations"] and float(rig.angle0_arg) != float(rig.angle0_given):
+        bad("angle_mismatch", "caller_argument_modified", f"the angle0 object handed to the joint ({plan.get('angle0_kind')}) was changed from {float(rig.angle0_given)!r} to {float(rig.angle0_arg)!r} by querying the joint")
+    if plan.get("angle0_kind", "float") != "float":
+        out["probes"]["angle0_as_numpy_object"] += 1
     out["steps"] = len(plan["ops"])
     out["nontrivial"] = changes > 0
     out["abstract"] = repr(
